@@ -10,6 +10,9 @@ CHECKS = {
     "C01": dict(spec="RequestWait", ref="DESIGN.md §4 C01",
                 text="TLC explores RequestWait exhaustively (1 caller, 3 arrivals of 6 kinds, poll/deadline ties) and every clause holds in the model; the environment schedules of the generation instance plus seeded random schedules are executed against the real send_message under a virtual clock and every recorded trace is validated by TLC against RequestWaitTrace (implementation-shaped spec, then total observer) with all clauses evaluated on the observed behaviour.",
                 note="Trusted: TLC, the virtual-time event loop, the recording write stream; payload/params equality is compared by the driver and reaches TLC as a flag. Bounds: model constants; random schedules up to 12 arrivals on the 10 ms grid."),
+    "C02": dict(spec="Envelope", ref="DESIGN.md §4 C02",
+                text="Envelope defines the JSON-RPC 2.0 grammar over abstract envelopes (version, id class, method, params/result/error presence, integer code, string message), Kind and Valid, and the Construct -> Serialise -> Parse machine with the round-trip invariant; TLC checks it for the four message kinds. All 13 constructors of the package (typed classes, create_* helpers, legacy class methods) are called in both back-end processes for 10 ids x 9 payload shapes plus seeded payloads; both serialised forms are abstracted to envelopes and parsed back with parse_message; TLC judges emitted-valid, parser-accepts, same kind, same id (value and JSON type) and identical payload tree for every case. Emitters reached only through other code paths are judged where they are exercised (typed helpers C01/C07, server handler C08, transports C11/C12).",
+                note="Trusted: TLC; tagged-tree equality and the envelope abstraction computed by the worker. Assurance inside a payload/id class is that of representatives plus seeded members."),
     "C03": dict(spec="Handshake", ref="DESIGN.md §4 C03",
                 text="Handshake models send_initialize step by step (propose, answer, decide, send initialized, return + version tracking); TLC explores all 325 ordered supported lists over 3 real + 2 invented versions x 7 preferences x tracked/untracked x 18 server answers (209 440 states) and checks the proposal rule, success-only-on-offered, mismatch-raises, no/exactly-one initialized notification (and its position) and batching-tracks-version. TLC emits every (configuration, answer) pair; each is executed against the real send_initialize(_with_client_tracking) with a scripted responder under the virtual clock and the recorded trace is validated by TLC against the specification (strict, then observer), all clauses judged on the observed behaviour.",
                 note="Trusted: TLC, the virtual clock, the recording write stream. For malformed results, JSON-RPC errors and silence only failure and absence of the notification are required."),
@@ -28,6 +31,12 @@ CHECKS = {
     "C08": dict(spec="ServerDispatch", ref="DESIGN.md §4 C08",
                 text="ServerDispatch models handle_message step by step (lookup, invoke, reply) over message kind x method class (core, tool/resource returning/raising/nonsense/unknown/unhashable, custom ok/raises/nonsense/none, every MessageMethod.NOTIFICATION_* name, unregistered, random) x params shape x id class; TLC checks one-response-per-request, no-response-per-notification, never-raises and the statement's code table exhaustively, on the deviation-free design and on the model of the tree. Every case is then executed against a real MCPServer/ProtocolHandler and TLC judges the observed outcome (and the JSON line a stdio loop would print) against the clauses and against the implementation-shaped prediction (drift).",
                 note="Trusted: TLC; the configured server in harness/drivers/server_drv.py; notification names extracted from MessageMethod. Known finding: a handler returning (None, sid) to a request (pinned by a repository test)."),
+    "C09": dict(spec="Validate", ref="DESIGN.md §4 C09",
+                text="Validate transcribes the part of the two validation semantics where they can differ on valid traffic - unions of primitives (RequestId, ProgressToken), unions of models discriminated by a Literal member, post-init invariants - as two operators Pyd and Fb; TLC checks Agree, id-keeps-type, content-keeps-variant and invariants-both-or-neither on every type x valid value, and shows that the pre-repair deviations violate them. Every McpPydanticBase subclass of the package (discovered in both back ends) gets type-directed valid wire objects (optional-member subsets, unknown members, nested nulls, aliases); two worker processes (Pydantic / MCP_FORCE_FALLBACK=1) validate and dump each; TLC judges both-accept, same variant at every level, same dump, and compares the union-core observations with the model's prediction per back end (drift).",
+                note="Trusted: TLC, the type-directed generator (objects rejected by both back ends are counted as generator inadequacy, not judged). Transport configuration classes are excluded. Known finding: Root's file:// invariant under Pydantic (pinned by a test)."),
+    "C10": dict(spec="Validate (losslessness), WireNames clause", ref="DESIGN.md §4 C10",
+                text="Same generated objects and worker processes as C09: for each back end, validate then dump with wire names; TLC judges that every member of the input is preserved exactly (unknown members, aliased members under their wire names, nested nulls) and that added members are declared fields. All library functions that call model_dump are discovered by scanning the package; each is driven with every alias populated under both back ends and TLC judges that no Python attribute name with a different wire alias appears and that the wire name is present. A dump site without a driver fails the check.",
+                note="Trusted: TLC, the losslessness comparison of the harness (flags), the discovery scan. Three dump sites are waived with a reason."),
     "C11": dict(spec="HttpTransport", ref="DESIGN.md §4 C11",
                 text="HttpTransport specifies the serial sender loop, the outcome relation Allowed(kind, behaviour) of the statement (what may appear on the read stream for every way an endpoint can answer a POST) and session tracking; TLC enumerates the matrix of meaningful behaviours (6 statuses x 4 content types x 11 body classes x 7 SSE encodings x 3 transport exceptions x session header) and checks one-terminal, no-invention and session-most-recent on all sequences of length 2 (257 k states). Every matrix entry - alone with every id class (incl. 0 and \"\"), after a session-issuing response, and inside seeded sequences of length 4, each followed by a probe request - runs against the real http_client over a scripted httpx transport under the virtual clock; TLC judges every step (items on the read stream, Mcp-Session-Id header) without stopping at the first failure.",
                 note="Trusted: TLC, the httpx MockTransport seam, the SSE encoder of the driver (produces the conformant encodings). The real-socket variant of DESIGN §4 is not built."),
